@@ -244,3 +244,23 @@ Proof.
   unfold a_waiting. cbn [a_reg regs]. rewrite existsb_app. cbn [existsb rw]. rewrite N.eqb_refl.
   now rewrite orb_true_r.
 Qed.
+
+(* a registration on listener l is taken out of the set only by a notify or removal of l itself
+   (for a thread l: its destructor - a waitthread caller stays registered on its callee until
+   the callee is destroyed) or when its own thread withdraws it; an operation on another
+   listener at most cancels it *)
+Theorem registration_survives_other_listeners src n x r :
+  In r (regs x) -> rsrc r <> src ->
+  exists r', In r' (regs (fst (a_detach src n x))) /\
+             rseq r' = rseq r /\ rw r' = rw r /\ rsrc r' = rsrc r /\ rn r' = rn r.
+Proof.
+  intros Hr Hn. cbn [a_detach fst regs].
+  exists (cancel_of (by_last (live_waiters_of src n (regs x))) r). split.
+  - apply in_map. apply filter_In. split; [exact Hr|].
+    destruct (on_src src n r) eqn:E; [|reflexivity]. apply on_src_true in E. destruct E as [E _]. congruence.
+  - unfold cancel_of. destruct (lmem (LThr (rw r)) (by_last (live_waiters_of src n (regs x)))); cbn; auto.
+Qed.
+
+Theorem registration_survives_other_withdrawals w x r :
+  In r (regs x) -> rw r <> w -> In r (regs (fst (a_cancel_rest w (fst (a_cancel0 w x))))).
+Proof. intros. now apply (proceeding_withdraws_all_registrations w x). Qed.
